@@ -1,8 +1,8 @@
 (** Extraction of the command-line group (C20): Impl.Cli.run and what the
-    driver needs to build its options; idempotence_certificate (Spec/Idle.v) is the
-    decidable hypothesis of Properties/C20c.v, evaluated by the harness per case. *)
-From PM Require Import Impl.Anchor Impl.Cli Spec.Idle.
+    driver needs to build its options.  (The certificates of Properties/C20c.v are
+    extracted separately: ExtractCert/ExCert.v.) *)
+From PM Require Import Impl.Anchor Impl.Cli.
 Require Extraction.
 Require Import ExtrOcamlBasic.
 Extraction Language OCaml.
-Extraction "../ocaml/cli/model.ml" types_anchor run mkOpts parse_fmt process_in process_tree idempotence_certificate.
+Extraction "../ocaml/cli/model.ml" types_anchor run mkOpts parse_fmt process_in process_tree.
